@@ -7,7 +7,8 @@ from .. import gen, putcheck, run, snap, spec, world
 ID = 'C01'
 
 SPELLINGS = ['rel', 'abs', 'dotslash', 'dotdot', 'dotdot_link', 'trail1',
-             'trail2', 'trail3', 'via_link_parent', 'abs_trail', 'double_slash']
+             'trail2', 'trail3', 'via_link_parent', 'abs_trail', 'double_slash',
+             'via_link_ancestor']
 DOT_SPELLINGS = ['.', '..', './', '../', 'd/.', 'd/..', 'd/./', './/',
                  'd/../', 'd/.//', './.', 'mount', 'mount/', 'ancestor',
                  'mount_rel']
@@ -190,7 +191,20 @@ def add_entry(L, rng, workdirs, a, tag, used, kinds=None, spellings=None,
         L.add({'p': workdirs[lv] + '/pl%d' % a, 't': 'l', 'to': '@/' + d})
         spelling = os.path.relpath('/' + workdirs[lv], '/' + cwd) + '/pl%d/' % a + name
         via_link = workdirs[lv] + '/pl%d' % a
-    if spelling.startswith('@') and sp not in ('abs', 'abs_trail'):
+    elif sp == 'via_link_ancestor':
+        # a symbolic link HIGHER UP than the parent (a symlinked $HOME, a
+        # symlinked project root): al -> dirname(d);  al/<basename d>/name,
+        # spelled absolute and normalised
+        lv = rng.choice(vols)
+        up = os.path.dirname(d)
+        if up and up != d:
+            L.add({'p': workdirs[lv] + '/al%d' % a, 't': 'l', 'to': '@/' + up})
+            spelling = '@/' + workdirs[lv] + '/al%d/' % a + os.path.basename(d) + \
+                '/' + name
+        else:
+            sp = 'abs'
+            spelling = '@/' + rel
+    if spelling.startswith('@') and sp not in ('abs', 'abs_trail', 'via_link_ancestor'):
         spelling = './' + spelling      # '@' is the harness's root placeholder
     out = {'spelling': spelling, 'class': sp, 'kind': kind, 'rel': rel,
            'target': tgt_rel}
